@@ -39,3 +39,31 @@ package builtin
 //@   # (the inner append collects the variants of a multi-type parameter; `t` is its loop variable)
 //@   callsite[C07] append !inscope(t) ==> baseType.isBuiltin
 //@   callsite[C07] MakeKeyValue a_valueT.isBuiltin
+//@   # C21: `?T` as a parameter is T with is_default, `*T` is T with is_asterisk: both notations set the
+//@   # same mark on the registered parameter type (positional and keyword parameters alike)
+//@   callsite[C21] append !inscope(t) ==> (arg.IsDefault ==> baseType.hasDefault) && baseType.IsBuiltinAsterisk == arg.IsAsterisk
+//@   callsite[C21] append !inscope(t) && len(arg.Type) == 1 && len(arg.Type[0]) > 0 && arg.Type[0][0] == '?' && !strings.Contains(arg.Type[0], "|") && !strings.Contains(arg.Type[0], "[") ==> baseType.hasDefault
+//@   callsite[C21] append !inscope(t) && len(arg.Type) == 1 && len(arg.Type[0]) > 0 && arg.Type[0][0] == '*' && !strings.Contains(arg.Type[0], "|") && !strings.Contains(arg.Type[0], "[") ==> baseType.IsBuiltinAsterisk
+//@   callsite[C21] MakeKeyValue (arg.IsDefault ==> a_valueT.hasDefault) && a_valueT.IsBuiltinAsterisk == arg.IsAsterisk
+
+//@ # ---- C21: equivalent notations ----
+//@ # `Int` and `Integer` name the same type value; `NilClass` is the shared nil type value
+//@ func ti/builtin.ConvertToBuiltinT
+//@   ensures[C21] typeStr == "Int" ==> result == selfcall("Integer")
+//@   ensures[C21] typeStr == "NilClass" ==> result == valueof(NilT)
+//@ # compact notation: `?T` is the two-member union [T, NilClass] in that order (what the long form
+//@ # ["T", "NilClass"] builds, see parseReturnType), `*T` is T with the asterisk mark, `[T]` an array of
+//@ # one member, anything without a prefix or `|` is looked up as a name
+//@ func ti/builtin.parseTypeString
+//@   inline 3 1
+//@   bycontract MakeUnion
+//@   ensures[C21] len(typeStr) > 1 && typeStr[0] == '?' ==> result.tType == base.UNION && len(result.variants) == 2 && result.variants[1].tType == old(NilT.tType) && result.variants[1].objectClass == old(NilT.objectClass)
+//@   ensures[C21] len(typeStr) > 1 && typeStr[0] == '*' ==> result.IsBuiltinAsterisk
+//@   ensures[C21] typeStr == "NilClass" ==> result == valueof(NilT)
+//@   ensures[C21] typeStr == "NilClass" ==> result.tType == old(NilT.tType) && result.objectClass == old(NilT.objectClass)
+//@ func ti/builtin.parseReturnType
+//@   inline 3 1
+//@   bycontract MakeUnion
+//@   loop 0 invariant[C21] rangeindex + 1 <= len(returnType.Type) && len(types) == rangeindex + 1
+//@   loop 0 invariant[C21] len(returnType.Type) == 2 && len(types) >= 2 && returnType.Type[1] == "NilClass" ==> types[1].tType == old(NilT.tType) && types[1].objectClass == old(NilT.objectClass)
+//@   ensures[C21] len(returnType.Type) == 2 && returnType.Type[1] == "NilClass" ==> result.tType == base.UNION && len(result.variants) == 2 && result.variants[1].tType == old(NilT.tType) && result.variants[1].objectClass == old(NilT.objectClass)
